@@ -9,7 +9,7 @@
 From Coq Require Import List ZArith Bool String.
 From GoHls Require Import Model.PlaylistBase Model.PlaylistIdeal Model.Playlist Model.PlaylistSpec
   Proofs.PlaylistRefute Proofs.PlaylistIdeal Proofs.PlaylistMedia Proofs.PlaylistMulti Proofs.PlaylistC14
-  Proofs.PlaylistExamples.
+  Proofs.PlaylistExamples Proofs.PlaylistVariants Proofs.PlaylistKind.
 Import ListNotations.
 Local Open Scope string_scope.
 
@@ -94,3 +94,36 @@ Theorem c14_multivariant_roundtrip : forall (O : oracles), oracle_ok O -> forall
     /\ multivariant_marshal O p' = multivariant_marshal O p.
 Proof. exact multivariant_roundtrip. Qed.
 Print Assumptions c14_multivariant_roundtrip.
+
+(* ---- kind selection ---- *)
+(* playlist.Unmarshal picks the right kind: of the Marshal output of a media playlist value it
+   returns a Media (the F4 image of the value), of a multivariant value a Multivariant *)
+Theorem c14_kind_media : forall (O : oracles), oracle_ok O -> forall p : Media,
+  wf_media p = true ->
+  exists p', unmarshal O (media_marshal O p) = Ok (PMedia p') /\ media_eqvb (f4_image p) p' = true.
+Proof. exact unmarshal_media_kind. Qed.
+Print Assumptions c14_kind_media.
+
+Theorem c14_kind_multivariant : forall (O : oracles), oracle_ok O -> forall p : Multivariant,
+  wf_multivariant p = true ->
+  exists p', unmarshal O (multivariant_marshal O p) = Ok (PMultivariant p')
+             /\ multivariant_eqvb p p' = true.
+Proof. exact unmarshal_multivariant_kind. Qed.
+Print Assumptions c14_kind_multivariant.
+
+(* ---- syntactic variants ---- *)
+(* CRLF line ends, for EVERY byte string without CR (not only Marshal output): replacing each LF
+   by CR LF changes neither the result nor the error of the two typed decoders.
+   Partial: the statement for playlist.Unmarshal (findType), unknown tags and attributes and
+   attribute order are covered by the correspondence run and the oracle only. *)
+Theorem c14_variants_partial_crlf : forall (O : oracles) (b : string), no_byte CR b = true ->
+  media_unmarshal O (crlf b) = media_unmarshal O b
+  /\ multivariant_unmarshal O (crlf b) = multivariant_unmarshal O b.
+Proof. exact (fun O b H => conj (media_unmarshal_crlf O b H) (multivariant_unmarshal_crlf O b H)). Qed.
+Print Assumptions c14_variants_partial_crlf.
+
+(* missing trailing newline, for every byte string without CR (Media.Unmarshal) *)
+Theorem c14_variants_partial_final_newline : forall (O : oracles) (b : string), no_byte CR b = true ->
+  media_unmarshal O (b ++ lf) = media_unmarshal O b.
+Proof. exact media_unmarshal_final_lf. Qed.
+Print Assumptions c14_variants_partial_final_newline.
